@@ -41,8 +41,29 @@ def dispatch_harness(tier):
     h.need_globals = list(TIS.values())
     return h
 
+def dyncast_harness():
+    """D6: Dynamic_Caster<Base, Derived>::cast - the down-cast half of a registered polymorphic base-class conversion"""
+    rx = r'Dynamic_Caster<verif_types::Base, verif_types::Derived>::cast\(chaiscript::Boxed_Value const&\)$'
+    stubs = [r'Cast_Helper_Inner<', r'chaiscript::Boxed_Value::Boxed_Value<', r'bad_boxed_dynamic_cast::', r'Object_Data::get']
+    cuts = [r'std::shared_ptr<.*>::~shared_ptr', r'std::__shared_ptr<.*>::~__shared_ptr']
+    g, info = core.translate(FAM, [rx], stubs, tag='D6_probe', cuts=cuts)
+    ext = [e.split('|')[0].strip() for e in info['ext']]
+    def opt(pat, dflt):
+        m = [e for e in ext if re.search(pat, e)]
+        if len(m) > 1: raise core.BuildError('C06 D6: %d externals match %s' % (len(m), pat))
+        return ('F_' + core.cname(m[0])) if m else dflt
+    d = {'DYN_CAST': core.csym(FAM, rx), 'CAST_CREF': opt(r'17Cast_Helper_InnerIRKN11verif_types4BaseEE4castE', 'unused_cast_cref'), 'CAST_REF': opt(r'17Cast_Helper_InnerIRN11verif_types4BaseEE4castE', 'unused_cast_ref'),
+         'CAST_SP_CONST': opt(r'17Cast_Helper_InnerISt10shared_ptrIKN11verif_types4BaseEEE4castE', 'unused_cast_spc'), 'CAST_SP': opt(r'17Cast_Helper_InnerISt10shared_ptrIN11verif_types4BaseEEE4castE', 'unused_cast_sp'),
+         'MK_SP_CONST': opt(r'11Boxed_ValueC[12]ISt10shared_ptrIKN11verif_types7DerivedEEvEEOT_b', 'unused_mk_spc'), 'MK_SP': opt(r'11Boxed_ValueC[12]ISt10shared_ptrIN11verif_types7DerivedEEvEEOT_b', 'unused_mk_sp'),
+         'MK_CREF': opt(r'11Boxed_ValueC[12]ISt17reference_wrapperIKN11verif_types7DerivedEEvEEOT_b', 'unused_mk_cref'), 'MK_REF': opt(r'11Boxed_ValueC[12]ISt17reference_wrapperIN11verif_types7DerivedEEvEEOT_b', 'unused_mk_ref'),
+         'BAD_DYN_CAST_CTOR': opt(r'22bad_boxed_dynamic_castC[12]E', 'unused_bad_dyn_ctor'), 'TI_BAD_BOXED_DYNAMIC_CAST': '((char*)&g__ZTIN10chaiscript9exception22bad_boxed_dynamic_castE)', 'VERIF_STRCMP_BY_IDENTITY': 1, 'VERIF_CALL_V1(f,a)': '__VERIF_v1_hook(f,a)'}
+    h = Harness('D6.base_class_down_cast', FAM, [rx], 'c06_dyncast.c', stubs=stubs, cuts=cuts, shapes=[dict(d, _tag='all forms', _witness=('witness: other static type', 'witness: wrong dynamic type refused', 'witness: down-cast succeeds'))],
+                opts=['--unwind', '4'], timeout=120, mem_gb=4, inputs=['dyn', 'is_ptr', 'is_const', 'static_is_base'], note='dynamic type of the object (Base / Derived / another subclass), storage form (shared_ptr / reference), constness and static type of the box: symbolic')
+    h.need_globals = ['_ZTIN10chaiscript9exception22bad_boxed_dynamic_castE', '_ZTIN11verif_types4BaseE', '_ZTIN11verif_types7DerivedE']
+    return h
+
 def harnesses(tier):
-    hs = [dispatch_harness(tier)]
+    hs = [dispatch_harness(tier), dyncast_harness()]
     shapes = []
     def mk_replay(form):
         def replay(inp, shape, failed):
